@@ -34,6 +34,8 @@ def run(c):
              desc="Extension::rewind appends the positions returned by rewind_single_block to affected_pos")
     c.r1("rewind-each-block", R, E + "rewind_single_block", sink="re:alloc::vec::Vec::append$", via=2)
     c.r2_arg("rewind-passes-affected", R, ACC, 1, must=["call:Vec::new"], where=r"Vec::new", floor=1)
+    c.r1("accumulator-indices-sorted", ACC, "re:core::slice::(?:<impl \\[T\\]>::)?sort(_unstable)?$", sink="grin_chain::txhashset::bitmap_accumulator::BitmapAccumulator::apply", via=2, called_only=True,
+         desc="apply_to_bitmap_accumulator sorts the affected leaf indices before handing them to BitmapAccumulator::apply (which rebuilds from the first one)")
     c.r2_arg("accumulator-size", ACC, "grin_chain::txhashset::bitmap_accumulator::BitmapAccumulator::apply", 3, must=["call:pmmr::n_leaves", "arg0.output_pmmr.size"])
     c.r2_arg("accumulator-leaves", ACC, "grin_chain::txhashset::bitmap_accumulator::BitmapAccumulator::apply", 2, must=["re:^call:.*leaf_idx_iter$", "arg0.output_pmmr", "call:BitmapAccumulator::chunk_start_idx"])
     # --- committed accumulator only replaced on the commit exit; rebuilt on open
